@@ -222,6 +222,8 @@ fn profile() -> Profile {
                 ("chmod_b", 4),
             ],
             QUERIES,
+            // handles, under the rules of `handle_ok`
+            &[("open_read", 1), ("open_write", 2), ("open_append", 2), ("h_write", 4), ("h_read", 2), ("h_seek", 2), ("h_read_to_end", 1), ("h_drop", 3), ("h_drop_unwind", 1)],
         ]),
         spelling: 1,
         hostile: 0,
